@@ -37,6 +37,8 @@ B("C07", "scan passes a constant", MD, "Node(\"\", data, \"\", 0, len(data)), de
 B("C07", "depth in sort key", MD, "key=lambda t: (t.start, -t.end),", "key=lambda t: (t.start, -t.end * depth_limit),", "R3-noninterference")
 B("C07", "depth passed to decoders", MD, "for hit in search(node.value) if hit.value", "for hit in search(node.value[: 4096 * depth_limit]) if hit.value", "R3-noninterference")
 B("C07", "guard returns a copy", MD, "        if depth_limit <= 0:\n            return node\n", "        if depth_limit <= 0:\n            return Node(node.type, node.value)\n", "R1-bare-return")
+B("C07", "children arm walks the whole subtree (seed s43)", MD, "            for child in node.children:\n                self.scan_node(child, depth_limit - 1)", "            for child in node:\n                self.scan_node(child, depth_limit - 1)", "R4-one-level-per-call")
+B("C07", "decoded arm re-scans the parent", MD, "self.scan_node(hit, depth_limit - 1)", "self.scan_node(hit.parent, depth_limit - 1)", "R")
 N("C07", "guard < 1", MD, "if depth_limit <= 0:", "if depth_limit < 1:")
 N("C07", "guard not > 0", MD, "if depth_limit <= 0:", "if not depth_limit > 0:")
 N("C07", "temporary for remaining depth", MD, "        stack: list[Node] = []\n", "        remaining = depth_limit - 1\n        stack: list[Node] = []\n",
@@ -449,3 +451,28 @@ N("C02", "prefix test with both spellings", PSF, PS_INT, 'return int(stripped.de
 N("C02", "strip after decode", PSF, "        stripped = byte.strip()\n        " + PS_INT, '        stripped = byte.strip()\n        return int(byte.decode().strip(), 16 if stripped.lower().startswith(b"0x") else 10)')
 N("C02", "xml decimal base spelled out", XMLF, "else int(x) for x in", "else int(x, 10) for x in")
 N("C02", "depth via a temporary", MD, "                self.scan_node(hit, depth_limit - 1)", "                remaining = depth_limit - 1\n                self.scan_node(hit, remaining)")
+
+# ------------------------------------------------------------------ neutral idioms from the refactoring round (DESIGN.md section 13)
+SWAP_OLD = "            if hit.value.lower() != hit.original.lower() or hit.children:\n                # Add decoded result and check for new IOCs\n                decode_end = hit.end + offset\n                self.scan_node(hit, depth_limit - 1)\n            else:\n                # No need to rescan, set as context\n                stack.append(node)\n                node = hit\n                offset += hit.start\n"
+SWAP_NEW = "            decoded = hit.value.lower() != hit.original.lower() or hit.children\n            if not decoded:\n                stack.append(node)\n                node = hit\n                offset += hit.start\n            else:\n                decode_end = hit.end + offset\n                self.scan_node(hit, depth_limit - 1)\n"
+for _p in ("C02", "C04", "C05", "C06", "C08"):
+    N(_p, "decoded test through a temporary, arms swapped", MD, SWAP_OLD, SWAP_NEW)
+SORT_OLD = "        results = sorted(\n            (hit for search in self.decoders for hit in search(node.value) if hit.value),\n            key=lambda t: (t.start, -t.end),\n        )\n"
+SORT_NEW = "        results = []\n        for search in self.decoders:\n            results.extend(found for found in search(node.value) if found.value)\n        results.sort(key=lambda found: (found.start, -found.end))\n"
+for _p in ("C05", "C06", "C08", "C09"):
+    N(_p, "hits collected by an extend loop and sorted in place", MD, SORT_OLD, SORT_NEW)
+ORIG_OLD = "        if self.parent:\n            return self.parent.value[self.start : self.end]\n        return self.value\n"
+ORIG_NEW = "        if not self.parent:\n            return self.value\n        return self.parent.value[self.start : self.end]\n"
+for _p in ("C03", "C04", "C06"):
+    N(_p, "Node.original arms swapped", NODE, ORIG_OLD, ORIG_NEW)
+N("C03", "root through a temporary", MD, 'return self.scan_node(Node("", data, "", 0, len(data)), depth_limit)', 'root = Node("", data, "", 0, len(data))\n        return self.scan_node(root, depth_limit)')
+N("C19", "annotated accumulator", NODE, "        output = []\n        for node in self.children:", "        output: list[bytes] = []\n        for node in self.children:")
+N("C20", "reversed() in make_label", QUERY, 'return "/".join(label_list[::-1])', 'return "/".join(reversed(label_list))')
+N("C10", "is_domain through rpartition", NET, '    parts = domain.rsplit(b".", 1)\n    if len(parts) != 2:\n        return False\n    name, tld = parts\n', '    name, dot, tld = domain.rpartition(b".")\n    if not dot:\n        return False\n')
+N("C01", "is_domain through rpartition", NET, '    parts = domain.rsplit(b".", 1)\n    if len(parts) != 2:\n        return False\n    name, tld = parts\n', '    name, dot, tld = domain.rpartition(b".")\n    if not dot:\n        return False\n')
+N("C11", "domain filters merged into one positive test", NET, "        if not is_domain(domain) or len(domain) < 7:\n            continue\n        if domain_is_false_positive(domain):\n            continue\n        out.append(match_to_hit(DOMAIN_TYPE, match))\n", "        if is_domain(domain) and len(domain) >= 7 and not domain_is_false_positive(domain):\n            out.append(match_to_hit(DOMAIN_TYPE, match))\n")
+N("C17", "find loop written with != -1 and a size temporary", KW, "    start = data.find(keyword)\n    while start >= 0:\n        end = start + len(keyword)\n", "    size = len(keyword)\n    start = data.find(keyword)\n    while start != -1:\n        end = start + size\n", also=[dict(file=KW, old="        start = data.find(keyword, start + len(keyword))", new="        start = data.find(keyword, end)")])
+N("C01", "find loop written with != -1", KW, "    while start >= 0:", "    while start != -1:")
+N("C18", "module name through a temporary, filters merged", REG, "        if include and submod_info.name not in include:\n            continue\n        if exclude and submod_info.name in exclude:\n            continue\n        submodule = importlib.import_module(\".\" + submod_info.name, package=multidecoder.decoders.__name__)\n", "        name = submod_info.name\n        if (include and name not in include) or (exclude and name in exclude):\n            continue\n        submodule = importlib.import_module(\".\" + name, package=multidecoder.decoders.__name__)\n")
+N("C14", "xml references through a temporary and renamed", XMLF, '    return bytes(\n        int(x[1:], base=16) if x.startswith((b"x", b"X")) else int(x) for x in data.replace(b"&#", b"").split(b";")[:-1]\n    )\n', '    refs = data.replace(b"&#", b"").split(b";")[:-1]\n    return bytes(int(ref[1:], base=16) if ref.startswith((b"x", b"X")) else int(ref) for ref in refs)\n')
+N("C01", "xml references through a temporary and renamed", XMLF, '    return bytes(\n        int(x[1:], base=16) if x.startswith((b"x", b"X")) else int(x) for x in data.replace(b"&#", b"").split(b";")[:-1]\n    )\n', '    refs = data.replace(b"&#", b"").split(b";")[:-1]\n    return bytes(int(ref[1:], base=16) if ref.startswith((b"x", b"X")) else int(ref) for ref in refs)\n')
